@@ -64,6 +64,7 @@ func vpOptimCheck(mk func() *Problem, n int, holds func(a int) bool, holdsM func
 	pb1 := mk()
 	setCost(pb1)
 	s1 := New(pb1)
+	vpSteer(s1)
 	res := s1.Optimal(nil, nil)
 	zzvp.Assert(res.Status == Sat || res.Status == Unsat, "Optimal: status is Sat or Unsat")
 	if res.Status == Unsat {
@@ -82,6 +83,7 @@ func vpOptimCheck(mk func() *Problem, n int, holds func(a int) bool, holdsM func
 	pb2 := mk()
 	setCost(pb2)
 	s2 := New(pb2)
+	vpSteer(s2)
 	c2 := s2.Minimize()
 	if !sat {
 		// expected -1
@@ -108,7 +110,7 @@ func vpSymCost(n, kc, W int) (cl, cw []int) {
 			zzvp.Assume(zzvp.And(l != cl[j], l != -cl[j]))
 		}
 		cl[i] = l
-		cw[i] = zzvp.Int("cw", 0, W)
+		cw[i] = zzvp.Int("cw", zzvp.Param("Wlo", 0), W)
 	}
 	return
 }
@@ -117,13 +119,32 @@ func vpSymCost(n, kc, W int) (cl, cw []int) {
 func VP_C03_optim_cnf() {
 	zzvp.IntMode(true)
 	n := zzvp.Param("n", 3)
-	cnf, orig := vpSymCNF(n, zzvp.Param("m", 2), zzvp.Param("k", 2))
-	variant := zzvp.Choose("costkind", 3) // 0: weights, 1: nil weights, 2: no cost function
-	kc := 0
-	if variant != 2 {
-		kc = zzvp.Choose("kc", zzvp.Param("kc", 3)) + 1
-		if kc > n {
-			kc = n
+	var orig [][]int
+	if zzvp.Param("unitfirst", 0) == 1 {
+		// a unit clause followed by one clause of 1..k literals
+		u := zzvp.Int("l", -n, n)
+		zzvp.Assume(u != 0)
+		k := zzvp.Choose("k", zzvp.Param("k", 2)) + 1
+		c := make([]int, k)
+		for i := range c {
+			l := zzvp.Int("l", -n, n)
+			zzvp.Assume(l != 0)
+			c[i] = l
+		}
+		orig = [][]int{{u}, c}
+	} else {
+		_, orig = vpSymCNF(n, zzvp.Param("m", 2), zzvp.Param("k", 2))
+	}
+	variant := 0 // 0: weights, 1: nil weights, 2: no cost function
+	kc := n
+	if zzvp.Param("fullcost", 0) != 1 {
+		variant = zzvp.Choose("costkind", 3)
+		kc = 0
+		if variant != 2 {
+			kc = zzvp.Choose("kc", zzvp.Param("kc", 3)) + 1
+			if kc > n {
+				kc = n
+			}
 		}
 	}
 	cl, cw := vpSymCost(n, kc, zzvp.Param("W", 2))
@@ -131,13 +152,12 @@ func VP_C03_optim_cnf() {
 		cw = vpOnes(kc)
 	}
 	mk := func() *Problem {
-		c := make([][]int, len(cnf))
-		for i := range cnf {
+		c := make([][]int, len(orig))
+		for i := range orig {
 			c[i] = vpCopy(orig[i])
 		}
 		return ParseSliceNb(c, n)
 	}
-	_ = cnf
 	vpOptimCheck(mk, n,
 		func(a int) bool { return vpCNFHolds(orig, a) },
 		func(m []bool) bool { return vpModelHolds(orig, m) },
@@ -178,4 +198,16 @@ func VP_C03_optim_pb() {
 		func(a int) bool { return vpRefsHold(refs, a) },
 		func(m []bool) bool { return vpRefsHoldM(refs, m) },
 		cl, cw, false, true)
+}
+
+// vpSteer makes the initial phase of every variable symbolic, so that every
+// first model the decision heuristic could pick is explored (the property
+// must hold whatever the heuristic state is).
+func vpSteer(s *Solver) {
+	if zzvp.Param("steer", 0) != 1 {
+		return
+	}
+	for v := range s.polarity {
+		s.polarity[v] = zzvp.Bool("phase")
+	}
 }
